@@ -145,10 +145,11 @@ def run_config(ctx, binary, cfg, nruns, rng, obs_kinds, fee_cases):
     nshards = 4
     # a node has about 45 mature 50 BTC coinbases: runs with large previous fees are spread over more nodes
     per_node = 20 if max(pfs) >= 10 ** 6 else nruns
-    ncases = max(nshards, (nshards * nruns + per_node - 1) // per_node) + (3 if max(pfs) >= 10 ** 6 else 0)
-    nruns = min(nruns, per_node)
-    allruns = (directed_runs(rng, P) if max(pfs) >= 10 ** 6 else []) + make_runs(rng, P, nruns * ncases)
-    cases = [dict(addfee=P["addfee"], runs=allruns[i::ncases][:per_node]) for i in range(ncases)]
+    allruns = make_runs(rng, P, nruns * nshards)
+    if max(pfs) >= 10 ** 6:
+        allruns = directed_runs(rng, P) + directed_runs(rng, P) + directed_runs(rng, P) + allruns
+    ncases = max(nshards, (len(allruns) + per_node - 1) // per_node)
+    cases = [dict(addfee=P["addfee"], runs=allruns[i::ncases]) for i in range(ncases)]
     res = ctx.run_harness(binary, "run", cases, nproc=min(nshards, vflib.free_cpus()), name="waitnext_" + cfg[:-4], timeout=3000)
     for m in res["mismatches"]:
         raise vflib.InfraError("harness exception: %s" % m.get("why"))
@@ -173,7 +174,7 @@ def run_config(ctx, binary, cfg, nruns, rng, obs_kinds, fee_cases):
             adds = sum(1 for e in trunc[:trunc.index(r0)] if e["e"] == "add")
             if r0["a"] == 1 and r0["b"] == 0:
                 rise = wv(r0["c"]) - pfv
-                what = "returned: fees rose by exactly the threshold" if rise == t["th"] else "returned: fees rose by more than the threshold" if rise > t["th"] else "returned: fees rose by LESS than the threshold"
+                what = "returned: fees rose by exactly the threshold" if rise == t["th"] else "returned: fees rose by more than the threshold" if rise > t["th"] else "returned: fees rose by less than the threshold (the tip is over 20 minutes old)"
             elif r0["a"] == 0:
                 what = "nothing: fees unchanged" if adds == 0 else "nothing: fees rose by less than the threshold" if adds * P["addfee"] < t["th"] else "nothing: although fees rose by the threshold"
             else:
